@@ -443,6 +443,15 @@ def run(F, rep):
             n6 += 1
             rep.ob("C05-T6", o["instance"], o["ok"], detail=o["detail"], site=o["site"], key=o["key"].replace("C06-", "C05-T6/"))
     rep.floor("C05-T6", n6, 6, "wait / notify obligations of the queue")
+    # ------------------------------------------------------------ T8 the byte counter returns to what is queued (= C06-Q2)
+    # push waits on `bytes queued`: if a removal subtracts anything but what the insert added (a narrowed copy of the size,
+    # a different field), the counter drifts and a later push into an empty queue waits with nobody left to wake it
+    n8 = 0
+    for o in sub.obligations:
+        if o["rule"] == "C06-Q2":
+            n8 += 1
+            rep.ob("C05-T8", o["instance"], o["ok"], detail=o["detail"], site=o["site"], key=o["key"].replace("C06-Q2", "C05-T8"))
+    rep.floor("C05-T8", n8, 4, "byte-accounting obligations of the queue")
 
 
 def t5(F, rep):
